@@ -127,6 +127,10 @@ carquet_status_t carquet_snappy_decompress(
         } else if (type == SNAPPY_COPY_1) {
             /* Copy with 1-byte offset */
             size_t len = ((tag >> 2) & 0x07) + 4;
+            if (ip >= iend) {
+                /* Tag was the last input byte: the offset byte is missing */
+                return CARQUET_ERROR_INVALID_COMPRESSED_DATA;
+            }
             size_t offset = ((tag >> 5) << 8) | *ip++;
 
             if (offset == 0 || offset > (size_t)(op - dst)) {
